@@ -116,10 +116,74 @@ def chol(env):
     env.eq('A x = b on every non-raising path (a failed factorisation must not return a vector)', A_ @ x, rhs)
 
 
-def chol_numeric(env):
+@obligation('C10.Cholesky.batch', functions=[f'{SOL}:Cholesky.forward'], max_paths=32, no_validate=True,
+            note='cholesky_ex by contract, per batch item: info_i = 0 => L_i L_i^T = A_i; info_i != 0 => L_i arbitrary')
+def chol_batch(env):
+    """a batch mixing positive-definite and other matrices: the call raises unless EVERY factorisation succeeded"""
+    sol = env.load(SOL); T = env.T
+    if not env.sym:
+        return chol_numeric(env, batch=True)
+    from pvc import storch as st
+    items = []
+    for i in range(2):
+        a, c = env.scalar(f'a{i}', positive=True, regimes=('generic',))[0], env.scalar(f'c{i}', positive=True, regimes=('generic',))[0]
+        b_ = env.scalar(f'b{i}', regimes=('generic',))[0]
+        items.append((a, b_, c))
+    A_ = T.stack([T.stack([T.stack([a, b_]), T.stack([b_, c])]) for a, b_, c in items], 0)
+    rhs = T.stack([Msym(env, f'r{i}_', 2, 1) for i in range(2)], 0)
+    oks = []
+    def cholesky_ex(Am, upper=False, **k):
+        Ls, infos = [], []
+        for i in range(2):
+            ok = bool(env.scalar(f'info{i}_is_zero', regimes=('generic',))[0] > 0)
+            oks.append(ok)
+            if ok:
+                a, b_, c = Am[i, 0, 0], Am[i, 1, 0], Am[i, 1, 1]
+                l00 = T.sqrt(a); l10 = b_ / l00; l11 = T.sqrt(c - l10 * l10)
+                L = T.stack([T.stack([l00, l00 * 0]), T.stack([l10, l11])])
+            else:
+                L = env.fresh_matrix(f'Lgarbage{i}', 2, 2)
+            Ls.append(L.transpose(-1, -2) if upper else L); infos.append(0 if ok else 1)
+        return T.stack(Ls, 0), st.tensor(infos)
+    st.set_external('linalg.cholesky_ex', cholesky_ex)
+    try:
+        x = sol.Cholesky()(A_, rhs)
+    except AssertionError:
+        env.holds('raising is only allowed when a factorisation failed', not all(oks))
+        env._record('fails_loudly_when_an_item_is_not_positive_definite', 'proved', {'backend': 'path'})
+        return
+    env.holds('no vector is returned unless every factorisation of the batch succeeded', all(oks))
+    for i, (a, b_, c) in enumerate(items):
+        if oks[i]: env.assume(f'item {i} positive definite', (a > 0) & (a * c - b_ * b_ > 0))
+    if all(oks):
+        env.eq('A_i x_i = b_i for every item', A_ @ x, rhs)
+
+
+def chol_numeric(env, batch=False):
     import torch
     sol = env.load(SOL)
     rng = env.rng
+    if batch:
+        n = rng.randrange(1, 5); B = rng.randrange(2, 4)
+        g = torch.Generator().manual_seed(rng.randrange(1 << 30))
+        kinds = [rng.choice(['spd', 'spd', 'indefinite', 'singular']) for _ in range(B)]
+        mats = []
+        for kind in kinds:
+            Mx = torch.randn(n, n, dtype=torch.float64, generator=g)
+            if kind == 'spd': Ai = Mx @ Mx.T + torch.eye(n, dtype=torch.float64)
+            elif kind == 'indefinite': Ai = Mx + Mx.T; Ai[0, 0] = -abs(Ai[0, 0]) - 1
+            else: Ai = (Mx @ Mx.T) * 0 if n == 1 else (Mx[:, :1] @ Mx[:, :1].T)
+            mats.append(Ai)
+        A_ = torch.stack(mats, 0); b = torch.randn(B, n, 1, dtype=torch.float64, generator=g)
+        env.sample['kinds'] = [k == 'spd' for k in kinds] + [n]
+        try:
+            x = sol.Cholesky()(A_, b)
+        except AssertionError:
+            env.holds('raising is only allowed when a factorisation failed', not all(k == 'spd' for k in kinds)); return
+        env.holds('no vector is returned unless every factorisation of the batch succeeded', all(k == 'spd' for k in kinds))
+        if all(k == 'spd' for k in kinds):
+            env.eq('A_i x_i = b_i for every item', A_ @ x, b, tol=1e-6)
+        return
     kind = rng.choice(['spd', 'indefinite', 'singular'])
     n = rng.randrange(1, 6)
     Mx = torch.randn(n, n, dtype=torch.float64, generator=torch.Generator().manual_seed(rng.randrange(1 << 30)))
